@@ -611,7 +611,7 @@ func derivesFromRoot(v ssa.Value, root ssa.Value, d int) bool {
 
 func checkC14(w *World, c *Check, tier string) {
 	c.Exhaustive = true
-	c.Explanation = "Decides the insensitivity clauses structurally, over every use of a parsed URL's components in the closure of IRI.Equals: scheme, host and path of the two operands meet only in strings.EqualFold (the path after path cleaning) or in comparisons against constants — never in a case-sensitive == / != against each other; the scheme comparison is reachable only on the true side of the caller's checkScheme flag; fragment and raw query are never read (queries are compared only through the parsed, order-insensitive Query() multimap); the string fast path compares with EqualFold after stripping the fragment (and the scheme when not asked to check it); IRIs.Contains decides through IRI.Equals for every element. A case-sensitive comparison, an unconditional scheme test or a fragment read breaks the stated equivalence for a whole class of IRIs. (sym/refl) irisEqual and IRI.Equals are turned into decision trees over per-operand atoms and symmetric relational atoms: every pair of leaves consistent after exchanging the operands returns the same result, every leaf consistent with identical operands returns true; (components) host with port, path and parsed query of both operands are compared; (query) the values of a repeated key are compared completely as multisets, never by a one-directional lookup nest (that defect of the pinned tree was repaired, 7a585d0); (fastpath) the fast path compares the operands cut at the fragment/scheme delimiter only. NOT decided: transitivity, and agreement of the fast path with the URL path on all inputs beyond the purity condition."
+	c.Explanation = "Decides the insensitivity clauses structurally, over every use of a parsed URL's components in the closure of IRI.Equals: scheme, host and path of the two operands meet only in strings.EqualFold (the path after path cleaning) or in comparisons against constants — never in a case-sensitive == / != against each other; the scheme comparison is reachable only on the true side of the caller's checkScheme flag; fragment and raw query are never read (queries are compared only through the parsed, order-insensitive Query() multimap); the string fast path compares with EqualFold after stripping the fragment (and the scheme when not asked to check it); IRIs.Contains decides through IRI.Equals for every element. A case-sensitive comparison, an unconditional scheme test or a fragment read breaks the stated equivalence for a whole class of IRIs. (sym/refl) irisEqual and IRI.Equals are turned into decision trees over per-operand atoms and symmetric relational atoms: every pair of leaves consistent after exchanging the operands returns the same result, every leaf consistent with identical operands returns true; (components) host with port, path and parsed query of both operands are compared; (query) the values of a repeated key are compared completely as multisets, never by a one-directional lookup nest (that defect of the pinned tree was repaired, 7a585d0); (fastpath) the fast path compares the operands cut at the fragment/scheme delimiter only. NOT decided: transitivity, and agreement of the fast path with the URL path on all inputs beyond the purity condition. The path handed to a case-folding comparison is never URL.Path as written; the helpers that prepare the fast-path operands search for the scheme and fragment delimiters only."
 	c.RuleText = "one obligation per read of a url.URL component in the closure of IRI.Equals, plus guard/route obligations"
 	c.Trusted = []string{"go/ssa", "net/url field semantics", "strings.EqualFold is case-insensitive equality"}
 	c.floor("C14.fold", 4)
@@ -716,6 +716,12 @@ func checkC14(w *World, c *Check, tier string) {
 					continue
 				}
 				if fname == "Path" || fname == "RawPath" {
+					// the paths of the two operands are compared after cleaning: an EqualFold on the paths as they are written
+					// tells /a/b/ from /a//b although both are /a/b (a "same length, different spelling" quick reject)
+					if rawPathFolded(fa) {
+						c.bad("C14.fold", key, w.InstrPos(fa), fmt.Sprintf("%s hands URL.Path as it is written to strings.EqualFold against the other operand's path: trailing slashes, doubled slashes and dot segments make equivalent paths differ — each still equals its canonical form, so the relation also stops being transitive", funcName(f)))
+						continue
+					}
 					// a path may be cleaned (dot segments, doubled slashes) and lose a trailing slash; any other rewriting
 					// (a cut set that also strips dots or leading characters, replacements) makes ids with different
 					// paths equal: /.well-known/actor and /well-known/actor
@@ -831,6 +837,29 @@ func checkC14(w *World, c *Check, tier string) {
 				c.ok("C14.cut", key, w.InstrPos(call), "first occurrence")
 			case "LastIndex", "LastIndexByte", "LastIndexAny", "IndexAny", "Split", "Fields":
 				c.bad("C14.cut", key, w.InstrPos(call), fmt.Sprintf("%s locates %q with strings.%s: the scheme/fragment delimiter is the first occurrence; IRIs that embed another URL (a query parameter, an archive path) are cut in the wrong place and compare equal although host or path differ", funcName(f), sep, cal.Name()))
+			}
+		}
+	}
+	// … and the helpers that prepare the operands of the string fast path (string in, string out, called by IRI.Equals)
+	// search for those two delimiters only: a cut at any other character ("drop the user information up to the first @")
+	// removes part of what identifies the resource — host and path when the '@' sits in the path
+	for _, call := range callsIn(eq) {
+		h := call.Common().StaticCallee()
+		if h == nil || !w.InPkg(h) || h.Blocks == nil || h.Signature.Results().Len() != 1 || !isStringish(h.Signature.Results().At(0).Type()) {
+			continue
+		}
+		for _, hc := range callsIn(h) {
+			cal := hc.Common().StaticCallee()
+			if cal == nil || cal.Object() == nil || cal.Object().Pkg() == nil || cal.Object().Pkg().Path() != "strings" {
+				continue
+			}
+			if !(strings.HasPrefix(cal.Name(), "Index") || strings.HasPrefix(cal.Name(), "LastIndex") || cal.Name() == "Cut" || strings.HasPrefix(cal.Name(), "Split") || strings.HasPrefix(cal.Name(), "Trim")) {
+				continue
+			}
+			for _, a := range hc.Common().Args {
+				if sep, ok := constSeparator(a); ok && sep != "://" && sep != "#" && sep != ":" && sep != "" {
+					c.bad("C14.cut", fmt.Sprintf("%s:%s(%q)", funcName(h), cal.Name(), sep), w.InstrPos(hc), fmt.Sprintf("%s, which prepares an operand of the string fast path, cuts at %q: only the scheme delimiter and the fragment delimiter may be cut away before two IRIs are compared as text — anything else removes part of host, path or query for the IRIs that contain that character", funcName(h), sep))
+				}
 			}
 		}
 	}
@@ -2124,4 +2153,48 @@ func inlineMembershipScan(w *World, pr *prover, app *ssa.Function, b *ssa.BasicB
 		}
 	}
 	return false
+}
+
+
+// rawPathFolded: the value loaded from this URL.Path field reaches strings.EqualFold without having been cleaned, and
+// the other argument is not a constant.
+func rawPathFolded(fa *ssa.FieldAddr) bool {
+	var walk func(v ssa.Value, d int) bool
+	walk = func(v ssa.Value, d int) bool {
+		if d > 5 || v.Referrers() == nil {
+			return false
+		}
+		for _, r := range *v.Referrers() {
+			switch x := r.(type) {
+			case *ssa.UnOp:
+				if walk(x, d+1) {
+					return true
+				}
+			case *ssa.Convert:
+				if walk(x, d+1) {
+					return true
+				}
+			case *ssa.ChangeType:
+				if walk(x, d+1) {
+					return true
+				}
+			case *ssa.Call:
+				cal := x.Common().StaticCallee()
+				if cal == nil || cal.Object() == nil || cal.Object().Pkg() == nil {
+					continue
+				}
+				if cal.Object().Pkg().Path() == "strings" && cal.Name() == "EqualFold" && len(x.Common().Args) == 2 {
+					other := x.Common().Args[0]
+					if other == v {
+						other = x.Common().Args[1]
+					}
+					if _, isConst := other.(*ssa.Const); !isConst {
+						return true
+					}
+				}
+			}
+		}
+		return false
+	}
+	return walk(fa, 0)
 }
